@@ -99,7 +99,7 @@ def check(run, M, tier):
                         else:
                             run.bad("T1", f.qual, f.loc(n), "%s writes the iteration counter (`%s`); only Alg.update may advance it, so the update budget "
                                     "max_iter is no longer the number of updates performed" % (f.qual, unparse(n)), stmt=n)
-    run.floor("T1", 3, n_sites, "writes to an `iter` attribute")
+    run.floor("T1", 2, n_sites, "writes to an `iter` attribute")
     paths = enumerate_paths(upd.body)
     for p in paths:
         st = p.stmts()
@@ -203,7 +203,7 @@ def _t3(run, M, eff, c, done_f, others):
         if a is not None and a[0] == "sym":
             # a flag: must be set to True immediately before an early return of _update
             flag = a[1]
-            ok = _flag_before_return(upd, flag)
+            ok = _flag_before_return(upd, flag) or _flag_path_is_inert(M, upd, flag)
             run.check(ok, "T3", "%s flag %s" % (c.name, flag), done_f.loc(), "breakdown flag set immediately before an early return of _update",
                       "%s._done stops on %s, which is not a breakdown flag set right before an early return of _update" % (c.name, flag), stmt="T3:flag:" + c.name)
             continue
@@ -284,6 +284,24 @@ def _proportional(t, D, sol):
         if T.eq(t, T.mul(D, k)):
             return True
     return False
+
+
+def _flag_path_is_inert(M, upd, flag):
+    """semantic form of "set right before an early return": on every path of _update that raises the flag nothing else of the
+    algorithm's state changes, and some path leaves the flag alone"""
+    try:
+        _, outs = vn_paths(M, upd, real=REAL, loop_hook=havoc_loop)
+    except Unrecognised:
+        return False
+    raised = [o for o in outs if o.status != "raise" and T.show(o.env.get(flag), 10) == "True"]
+    others = [o for o in outs if o.status != "raise" and o not in raised]
+    if not raised or not others:
+        return False
+    for o in raised:
+        for k, v in o.env.items():
+            if k.startswith("self.") and k != flag and isinstance(v, T.Poly) and v != T.sym(k) and v != T.sym(k, real=True):
+                return False
+    return True
 
 
 def _flag_before_return(upd, flag):
